@@ -62,6 +62,46 @@ CHECKS['C17'] = dict(
          '<=2 characters); streams truncated inside a character are outside the property (reported only).',
     design='8 (C17), 3.2, Appendix C', engine='text-codec')
 
+CHECKS['C01'] = dict(
+    text='PlainSem.tla gives the step-wise semantics of a pipeline of dual-mode operators on the items of one group in '
+         'two readings (plain: take/first complete the stream early; multiplexed: a key completes with its parent), '
+         'including tee_map with its three joins and nested tees. TLC (PlainCheck.tla) proves for every pipeline of a '
+         'bounded grammar and every item sequence that both readings deliver the same items under the preconditions of '
+         'the property, and that without the tee precondition they do not. The real code is executed in BOTH modes on the '
+         'same keyed input - the multiplexed pipeline with interleaved keys (direct mux events, and under '
+         'with_memory_store + group_by) and the plain observable per group - for random well-typed pipelines of all '
+         'dual-mode operators to depth 4 with tees; PlainTrace.tla judges every pair (equal item sequences per group, '
+         'failure at the same item for assertions) and also compares both with PlainSem.',
+    note='Oracle = the plain execution itself (relational property). Preconditions enforced by the grammar or detected '
+         'dynamically (empty group reaching first/last/mean(reduce): skipped and counted). Bounded / sampled.',
+    design='8 (C01)', engine='plain-vs-mux')
+CHECKS['C18'] = dict(
+    text='Csv.tla transcribes dump escaping, str.split, the token automaton of merge_escape_parts, unescaping and '
+         'parse_line as pure TLA+ operators parameterised by separator / quote / escape (variants: the code as it was, '
+         'and with the trailing-escape parity test); CsvNumber.tla transcribes parse_decimal in exact rational '
+         'arithmetic. TLC enumerates all rows of 1-3 string fields up to length 3 over a 5-symbol alphabet (one- and '
+         'two-symbol separators) and all numerals up to length 6, checks ParseLine(Dump(row)) = row and '
+         'Parse(numeral) = Value(numeral), and characterises exactly the failing rows of the defective variant. Every '
+         'enumerated row/numeral is replayed on the real dump/create_line_parser/parse_decimal; random typed rows '
+         '(1-8 columns, all separators, 64-bit ints, floats via str()) and files crossing the 64 KiB read boundary are '
+         'recorded; CsvTrace.tla validates every recorded execution field by field.',
+    note='Bounded alphabet for the exhaustive part; strings contain no line-boundary characters; float equality judged '
+         'in python with exact Fractions and logged for TLC.',
+    design='8 (C18), Appendix C', engine='csv')
+CHECKS['C19'] = dict(
+    text='JsonLines.tla composes the stages of load_from_file as coded - file.read(R) with full and short reads, '
+         'optional decompression (nondeterministic release, eof check), incremental decode buffering incomplete '
+         'characters, line.unframe (reusing LineFraming), load dropping empty lines - over an axiomatised serializer. '
+         'TLC checks stage-wise Confluence, NoEarlyOutput, NoError and RoundTrip for every object list, compression '
+         'on/off and read size 1..4, i.e. every alignment of read boundaries with multi-byte characters, compressed '
+         'units and line ends. TLC behaviours are replayed into the real load_from_file through a file-like object '
+         'returning exactly the planned reads on files really produced by dump_to_file; random executions cover nested '
+         'JSON values, full Unicode, none/gzip/zstd and files of several 64 KiB chunks; JsonLinesTrace.tla validates a '
+         'down-scaled image of every execution.',
+    note='json/orjson, codecs, zlib/zstandard are assumed components; the down-scaling of real executions to '
+         'model size is trusted python (cross-checked by TLC on line and byte counts).',
+    design='8 (C19), Appendix C', engine='json-lines')
+
 MUX_NOTE = ('Bounded / sampled: TLC explores the specification side exhaustively within small constants; '
             'the real code is driven on harness-enumerated small inputs and on random cases of the '
             'property\'s operator family, every recorded execution is judged by TLC. Trusts: the taps '
@@ -123,6 +163,12 @@ ENGINES = [
          serves_properties=['C16'], kind_free_text='TLA+ transducer spec with axiomatised library + TLC + trace validation'),
     dict(name='text-codec', path='spec/TextCodec.tla spec/TextCodecTrace.tla harness/checks/c17.py',
          serves_properties=['C17'], kind_free_text='TLA+ transducer spec + TLC + trace validation'),
+    dict(name='plain-vs-mux', path='spec/PlainSem.tla spec/PlainCheck.tla spec/PlainTrace.tla harness/checks/c01.py',
+         serves_properties=['C01'], kind_free_text='TLA+ two-reading semantics + TLC + paired executions judged by TLC'),
+    dict(name='csv', path='spec/Csv.tla spec/CsvNumber.tla spec/CsvTrace.tla harness/checks/c18.py',
+         serves_properties=['C18'], kind_free_text='TLA+ transcription of pure functions, exhaustive enumeration, trace validation'),
+    dict(name='json-lines', path='spec/JsonLines.tla spec/JsonLinesTrace.tla harness/checks/c19.py',
+         serves_properties=['C19'], kind_free_text='TLA+ staged pipeline model + TLC + trace validation'),
     dict(name='parquet', path='spec/ParquetDump.tla spec/ParquetDumpTrace.tla harness/checks/c20.py',
          serves_properties=['C20'], kind_free_text='TLA+ implementation model (heap of python lists) + TLC + trace validation'),
     dict(name='mux-contracts', path='spec/FnLib.tla spec/ListSem.tla spec/ListSemCheck.tla spec/Contracts.tla '
